@@ -14,6 +14,9 @@ THOROUGH_MODES = [("single", "MC_Cond_single_all.cfg"), ("struct", "MC_Cond_stru
                   ("cross", "MC_Cond_cross_all.cfg"), ("pair", "MC_Cond_pair.cfg"), ("pairq", "MC_Cond_pairq.cfg"), ("big", "MC_Cond_big.cfg"), ("locks3", "MC_Cond_locks3.cfg")]
 
 
+PSLOG = "/verif/corpus/parse_spends_inputs.log.gz"
+
+
 def file_hash(p):
     h = hashlib.sha256()
     with open(p, "rb") as f:
@@ -28,7 +31,7 @@ def sig(e):
 
 def run(tier, seed):
     exe = vlib.build_harness()
-    key = "%s-%s-%s-%s-%d" % (file_hash(__file__)[:8], file_hash(exe), vlib.spec_hash("Conditions.tla", "ConditionsObs.tla", "Trace_Conditions.tla", "MC_Cond.tla", "CondMenus.tla"), tier, seed)
+    key = "%s-%s-%s-%s-%d" % (file_hash(__file__)[:8], file_hash(exe), vlib.spec_hash("Conditions.tla", "ConditionsObs.tla", "Trace_Conditions.tla", "MC_Cond.tla", "CondMenus.tla"), tier, seed) + ("-" + file_hash(PSLOG)[:8] if os.path.exists(PSLOG) else "")
     wd = vlib.workdir("cond")
     cache = os.path.join(wd, "result-%s.json" % key)
     if os.path.exists(cache):
@@ -55,6 +58,20 @@ def run(tier, seed):
     t = os.path.join(wd, "random-big.ndjson")
     vlib.harness(["conditions", "--seed", seed + 1000, "--out", t, "--n", 150 if tier == "quick" else 2000, "--max-spends", 10, "--max-conds", 14, "--announce-limit", 1, "--flood", 1])
     paths += [t] if tier == "quick" else shard_file(t, 4, wd, "random-big")
+    # the inputs of every parse_spends call made by the repository's own test-suite (recorded once through the
+    # chia-consensus feature verif-hooks by tools/record_pslog.sh; inputs only, so the file does not depend on the
+    # implementation under test): run again on the current tree and judged by the specification
+    res["repo_test_inputs"] = 0
+    if os.path.exists(PSLOG):
+        import gzip
+        raw = os.path.join(wd, "pslog.txt")
+        with gzip.open(PSLOG, "rb") as f, open(raw, "wb") as g:
+            g.write(f.read())
+        t = os.path.join(wd, "repo-tests.ndjson")
+        vlib.harness(["conditions", "--seed", seed, "--out", t, "--pslog", raw, "--pslog-one-in", 5 if tier == "quick" else 1,
+                      "--pslog-max-nodes", 1500 if tier == "quick" else 6000])
+        res["repo_test_inputs"] = sum(1 for _ in open(t))
+        paths += shard_file(t, 2 if tier == "quick" else 8, wd, "repo-tests")
     validate_parallel("Trace_Conditions.tla", paths, chk, "cond", sig_fn=sig, jobs=8, classes=[])
     res["states"] += chk.states
     res["transitions"] += chk.transitions
@@ -109,6 +126,7 @@ def apply(chk, res, classes, rule):
     chk.extra.setdefault("model_runs", {}).update(res["mc"])
     chk.extra["accepted_distinct_inputs"] = res["accepted_distinct"]
     chk.extra["reject_classes_seen"] = res["reject_classes"]
+    chk.extra["repo_test_suite_inputs_replayed"] = res.get("repo_test_inputs", 0)
     for m in res["mismatch"]:
         if m["cls"] in classes:
             s = sig(m["event"])
